@@ -43,7 +43,13 @@ UNITS2 = [
     ("{0}C(C)(C)C(=O)O{1}", "lactone_like"),
     ("{0}[CH2][CH]({1})C", "bracket_carbons"),
     ("{0}CC({1})CCl", "two_letter_side_chain"),
+    ("{0}C([H])(CC){1}", "explicit_h_after_attachment_atom"),
+    ("{0}C({1})(C)C[H]", "explicit_h_last"),
 ]
+# explicit [H] written before an attachment atom: the tokenizer's atom index is shifted (known finding F-explicit-H-index)
+UNITS2_HSHIFT = [("{0}C([H])C{1}", "explicit_h_before_attachment_atom"), ("{0}C([H])([H])CC{1}", "two_explicit_h_before_attachment_atom")]
+WEIGHT_TEXTS_TINY = ["1e-9", "3e-9", "2.5e-10", "1e-12", "4e-9"]
+_TINY = [False]
 # shapes that trigger the two known token-parser defects on the pinned tree
 UNITS2_BRANCHY = [
     ("{0}CC(C)({1})C(=O)OC", "mma"),  # descriptor in a branch following another branch
@@ -126,6 +132,9 @@ def _f(rnd, x):
 
 def _w(rnd, p=0.35):
     """Optional scalar weight text."""
+    if _TINY[0]:
+        # every weight of this molecule is tiny (exponent notation): only their ratios matter
+        return "|" + rnd.choice(WEIGHT_TEXTS_TINY) + "|" if rnd.random() < 0.8 else ""
     if rnd.random() < p:
         sp = rnd.choice(["", "", " "])
         return "|" + sp + rnd.choice(WEIGHT_TEXTS) + sp + "|"
@@ -146,7 +155,13 @@ def _semi(rnd):
 
 def _units2(rnd, n, branchy):
     pool = UNITS2 + (UNITS2_BRANCHY if branchy else [])
-    return rnd.sample(pool, n)
+    units = rnd.sample(pool, n)
+    if _HSHIFT[0] and rnd.random() < 0.5:
+        units[0] = rnd.choice(UNITS2_HSHIFT)
+    return units
+
+
+_HSHIFT = [False]
 
 
 def linear_directed(rnd, cfg):
@@ -538,7 +553,16 @@ def gen_molecule(rnd, cfg=None, archetype=None):
     if archetype is None:
         names = list(ARCHETYPES)
         archetype = rnd.choices(names, weights=[WEIGHTS[n] for n in names])[0]
-    text, tags = ARCHETYPES[archetype](rnd, cfg)
+    _TINY[0] = rnd.random() < 0.06 and archetype in ("linear_directed", "undirected", "step_growth", "star", "hyperbranched", "multiblock", "alternating_ids")
+    _HSHIFT[0] = cfg.get("allow_illposed", True) and rnd.random() < 0.03
+    try:
+        text, tags = ARCHETYPES[archetype](rnd, cfg)
+    finally:
+        tiny, hshift = _TINY[0], _HSHIFT[0]
+        _TINY[0] = False
+        _HSHIFT[0] = False
+    if tiny:
+        tags.add("weights:tiny")
     return text, tags
 
 
